@@ -184,7 +184,7 @@ def stepInput (ctx : String) (c : Chain) : M Chain.StepIn := do
   let d := Chain.decision c.beta cur e (Chain.hastings c.props rev fwd)
   let lval : Option Rat := e.logp.map fun lp => Chain.logAR c.beta cur e.logl lp (Chain.hastings c.props rev fwd)
   let lenient := match lval with
-    | some l => l != 0 && (if l < 0 then -l else l) < tiny
+    | some l => decide ((if l < 0 then -l else l) < tiny)
     | none => false
   let front ← peekTag
   let logu ←
@@ -354,6 +354,15 @@ def handleOp (toks : List String) : M (List String) := do
     modify fun st => { st with sampler := some (s.load sv) }
     pure ["ok loadinto"]
   | ["dump"] => pure (dump (← getSampler) (← get).callsBase)
+  | ["anneal", bs, es] =>
+    let some bs := parseCsv parseRat bs | throw "bad-op anneal"
+    let some es := parseCsv parseRat es | throw "bad-op anneal"
+    pure [s!"anneal {showCsv showRat (Ladder.anneal bs es)}"]
+  | ["setbetas", bs] =>
+    let some bs := parseCsv parseRat bs | throw "bad-op setbetas"
+    pure [match Ladder.setBetas bs with
+      | some r => s!"setbetas {showCsv showRat r}"
+      | none => "setbetas raise"]
   | ["get", c, t, i] =>
     let some c := c.toNat? | throw "bad-op get"
     let some t := t.toNat? | throw "bad-op get"
